@@ -347,6 +347,36 @@ pub fn writers(args: &[String]) {
             }
         }
     }
+    // single large write calls straight into a tee (and a tee under a mapped writer whose segment is large): both targets get all of it
+    if shard == 0 {
+        for len in [65535usize, 65536, 65537, 131072, 200_001, 1_000_003] {
+            let input: Vec<u8> = (0..len).map(|i| if i + 1 == len { b'\n' } else { b'a' + (i % 23) as u8 }).collect();
+            let (mut a, mut b) = (Vec::new(), Vec::new());
+            {
+                let mut w = tee(&mut a, tee(&mut b, std::io::sink()));
+                w.write_all(&input).unwrap();
+                w.flush().unwrap();
+            }
+            runs += 2;
+            if (a != input || b != input) && violations.len() < 5 {
+                violations.push(json!({"variant": "tee (one large write)", "input": format!("{len} bytes in one write_all"), "chunks": [format!("1 x {len}")],
+                    "got": format!("targets hold {} / {} bytes", a.len(), b.len()), "want": format!("{len} bytes each")}));
+            }
+            let (mut a, mut b) = (Vec::new(), Vec::new());
+            {
+                let mut w = line_mapped(tee(&mut a, &mut b), mapf);
+                for c in input.chunks(7001) {
+                    w.write_all(c).unwrap();
+                }
+            }
+            let want = expected(&input, b'\n');
+            runs += 2;
+            if (a != want || b != want) && violations.len() < 5 {
+                violations.push(json!({"variant": "mapped(tee) (one large segment)", "input": format!("{len} bytes, one segment"), "chunks": ["write calls of 7001 bytes"],
+                    "got": format!("targets hold {} / {} bytes", a.len(), b.len()), "want": format!("{} bytes each", want.len())}));
+            }
+        }
+    }
     // long segments (around and beyond common buffer sizes), split in several ways: the mapping must still see whole segments
     let mut long_cases = 0u64;
     if shard == 0 {
